@@ -51,6 +51,8 @@ CONSTANTS
     TickSteps,     \* increments offered to Tick, in ticks
     NProofs,       \* proofs minted up front: 1..NProofs
     TsChoices,     \* timestamps (seconds on the same axis as the clock) a proof may carry
+    FarChoices,    \* subset of FarClasses: "near" = the timestamp is the number ts; the others put
+                   \*   it 1e9 .. 1e15 seconds or nearly MaxInt64 away from the clock
     NonceIds,      \* nonce identities a proof may carry
     ShareNonces,   \* TRUE: two proofs may carry the same nonce; FALSE: proof p carries nonce p
     KidChoices,    \* subset of {"k1","k2"}: configured key id a proof is minted under
@@ -69,7 +71,7 @@ CONSTANTS
 
 VARIABLES
     conf,          \* configuration chosen by Init: [build, mode, inner, cache, cap]
-    proofs,        \* 1..NProofs -> [ts, nonce, kid]   (fixed by Init)
+    proofs,        \* 1..NProofs -> [ts, nonce, kid, far]   (fixed by Init)
     now,           \* clock, ticks
     cache,         \* nonce cache: sequence of [n |-> nonce, e |-> expiresAt (ticks)]
     since,         \* ghost: since[p] = the distinct proofs the cache has admitted since p was
@@ -168,9 +170,24 @@ PreFail(f) ==
 \* the offered forms by exit (constant: evaluated once)
 FormsAt == TLCEval([i \in 0..NPre |-> TLCEval({f \in Forms : PreFail(f) = i})])
 
-Age(p) == Sec(now) - proofs[p].ts          \* age := nowFn().Unix() - ts
-TooOld(p) == Age(p) > Skew                 \* if age > skew   -> expired
-TooNew(p) == -Age(p) > Skew                \* if -age > skew  -> not_yet_valid
+\* Timestamps that lie further from the clock than any model clock runs (and than TLC's
+\* 32-bit integers reach) are symbolic: the class says on which side and how far, the driver
+\* picks the number.  They are 10..19-digit decimals, i.e. inside the 1-20 digit charset, and
+\* all fit int64, so they reach the window comparison like any other timestamp.  The code
+\* compares int64 seconds, which cannot overflow for two non-negative operands.
+FutClasses == {"fut9",     \* now + 1e9   (31 years: representable as a time.Duration)
+               "fut10",    \* now + 1e10  (317 years: beyond the range of time.Duration)
+               "fut12", "fut15",
+               "futmax"}   \* MaxInt64 and its neighbourhood
+PastClasses == {"past9", "past10", "past12", "past15"}     \* now - 1e9 .. now - 1e15
+FarClasses == {"near"} \cup FutClasses \cup PastClasses
+Near(p) == proofs[p].far = "near"
+
+Age(p) == Sec(now) - proofs[p].ts          \* age := nowFn().Unix() - ts   (near timestamps)
+TooOld(p) == IF Near(p) THEN Age(p) > Skew      \* if age > skew   -> expired
+             ELSE proofs[p].far \in PastClasses
+TooNew(p) == IF Near(p) THEN -Age(p) > Skew     \* if -age > skew  -> not_yet_valid
+             ELSE proofs[p].far \in FutClasses
 
 --------------------------------------------------------------------------
 (* nonceCache.checkAndAdd, one critical section.                           *)
@@ -341,7 +358,10 @@ Build_Refused ==
 
 Init ==
     /\ conf \in [build : Builds, mode : Modes, inner : Inners, cache : CacheModes, cap : Caps]
-    /\ proofs \in [PIds -> [ts : TsChoices, nonce : NonceIds, kid : KidChoices]]
+    /\ proofs \in [PIds -> [ts : TsChoices, nonce : NonceIds, kid : KidChoices, far : FarChoices]]
+    \* a far timestamp makes ts meaningless: pin it, and list far proofs after near ones of that ts
+    /\ \A p \in PIds : ~Near(p) => \A t \in TsChoices : proofs[p].ts <= t
+    /\ \A p \in PIds : (p + 1 \in PIds /\ proofs[p].ts = proofs[p + 1].ts /\ ~Near(p)) => ~Near(p + 1)
     \* symmetry: proofs are listed in non-decreasing (ts, nonce) order, and nonce ids are used
     \* from the smallest up
     /\ \A p \in PIds : p + 1 \in PIds =>
@@ -389,7 +409,7 @@ Last == hist'[Len(hist')]
 IsPresentation(s) == s.a \notin {"Init", "Tick", "Burst", "Build_Refused"}
 
 \* "its timestamp is within the skew window" -- two-sided, on whole seconds
-WithinWindow(ts, t) == Abs(Sec(t) - ts) <= Skew
+WithinWindow(p, t) == Near(p) /\ Abs(Sec(t) - proofs[p].ts) <= Skew
 
 \* "carries exactly one proof header whose MAC verifies under a configured key id for this
 \*  worker's origin and whose timestamp is within the skew window"
@@ -398,7 +418,7 @@ ValidProof(p, f) ==
     /\ f.kid = "kown"             \* claims the configured key id it was minted under
     /\ f.mac = "right"            \* MAC under that key id's secret and this worker's origin
     /\ f.tsc = "town"
-    /\ WithinWindow(proofs[p].ts, now)
+    /\ WithinWindow(p, now)
 
 \* In require mode a request passes the gate only if it carries a valid proof.
 GateOnlyIf ==
@@ -432,7 +452,7 @@ NoReplayWhileValid ==
     [][ (IsPresentation(Last) /\ conf.cache) =>
           LET p == Last.args.p IN
           (/\ since[p] # {}
-           /\ WithinWindow(proofs[p].ts, now)
+           /\ WithinWindow(p, now)
            /\ Cardinality(since[p]) <= Capacity)
              => ~Last.exp.verified ]_vars
 
@@ -442,7 +462,7 @@ BurstAdmitsOne ==
     [][ (Last.a = "Burst" /\ conf.cache) =>
           LET p == Last.args.p IN
           /\ Last.exp.admitted <= 1
-          /\ (since[p] # {} /\ WithinWindow(proofs[p].ts, now)
+          /\ (since[p] # {} /\ WithinWindow(p, now)
                 /\ Cardinality(since[p]) <= Capacity) => Last.exp.admitted = 0 ]_vars
 
 \* Not part of C25's text, but the sanity direction of the gate: a valid proof whose nonce no
